@@ -402,8 +402,9 @@ theorem handleFrames_keeps (s : St Tls) (p : Pkt) (fs : List Frame.Parsed) :
     · rename_i heq; rw [heq] at h; exact h
     · rename_i heq; rw [heq] at h; exact h.trans (ih _)
 
-theorem getFullPn_keeps (s : St Tls) (p : Pkt) : KeepsVer s (getFullPn s p).1 := by
-  unfold getFullPn
+/-- (was `getFullPn_keeps` before the pn-store repair: `getFullPn` is pure now, the store is `setLargestPn`) -/
+theorem setLargestPn_keeps (s : St Tls) (p : Pkt) (pn : Bytes) : KeepsVer s (setLargestPn s p pn) := by
+  unfold setLargestPn
   repeat' split
   all_goals first
     | exact KeepsVer.refl s
@@ -426,14 +427,11 @@ theorem selectDecryptor_keeps (s : St Tls) (p : Pkt) : KeepsVer s (selectDecrypt
 theorem decryptRest_keeps (s : St Tls) (p : Pkt) (d? : Option Dec) :
     KeepsVer s (decryptRest (params H Pc kl) s p d?).1 := by
   unfold decryptRest
-  have h := getFullPn_keeps s p
-  split
-  · rename_i heq; rw [heq] at h; exact h
-  · rename_i s1 pn heq; rw [heq] at h
-    repeat' split
-    all_goals first
-      | exact h
-      | exact h.trans (handleFrames_keeps H Pc kl _ _ _)
+  repeat' split
+  all_goals first
+    | exact KeepsVer.refl s
+    | exact setLargestPn_keeps s p _
+    | exact (setLargestPn_keeps s p _).trans (handleFrames_keeps H Pc kl _ _ _)
 
 theorem decryptPacket_keeps (s : St Tls) (p : Pkt) : KeepsVer s (decryptPacket (params H Pc kl) s p).1 := by
   unfold decryptPacket
